@@ -360,3 +360,177 @@ func ruleDropNameSet(p *core.Program) []core.Obligation {
 	}
 	return obs
 }
+
+// ---------------------------------------------------------------------------------------------
+// R-REFERRORS: the failure conditions of the reference's VectorBinop / aggregation have a counterpart.
+
+func init() {
+	register(&Rule{ID: "R-REFERRORS", Min: 3, Run: ruleRefErrors,
+		Doc: "every failure the reference engine can raise while matching a vector-to-vector binary operation (VectorBinop) or while validating an aggregation parameter (aggregation) has a counterpart in the operator that evaluates the same construct: the distinctive text of each reference error message (read from the pinned module) occurs in an error message of execution/binary resp. execution/aggregate. Siblings must agree on when they fail"})
+
+	mutant(Mutant{Rule: "R-REFERRORS", Name: "overflow-error-reworded-away", File: "execution/aggregate/khashaggregate.go",
+		Old: "errors.Newf(\"Scalar value %v overflows int64\", a.params[i])", New: "errors.Newf(\"invalid parameter %v\", a.params[i])", Expect: "overflows int64"})
+}
+
+// errorfMessages returns the constant format strings passed to <recv>.errorf / error-constructing calls in fn.
+func errorfMessages(pk *packages.Package, fn ast.Node, callee func(name string) bool, skipToken func(name string) bool) []string {
+	var out []string
+	mentionsSkipped := func(e ast.Node) bool {
+		hit := false
+		ast.Inspect(e, func(n ast.Node) bool {
+			if se, ok := n.(*ast.SelectorExpr); ok && skipToken != nil && skipToken(se.Sel.Name) {
+				hit = true
+			}
+			return !hit
+		})
+		return hit
+	}
+	ast.Inspect(fn, func(n ast.Node) bool {
+		// code that only runs for a construct the repository does not evaluate natively
+		switch x := n.(type) {
+		case *ast.IfStmt:
+			if mentionsSkipped(x.Cond) {
+				return false
+			}
+		case *ast.CaseClause:
+			for _, e := range x.List {
+				if mentionsSkipped(e) {
+					return false
+				}
+			}
+		}
+		call, ok := n.(*ast.CallExpr)
+		if !ok || len(call.Args) == 0 {
+			return true
+		}
+		name := ""
+		switch f := call.Fun.(type) {
+		case *ast.SelectorExpr:
+			name = f.Sel.Name
+		case *ast.Ident:
+			name = f.Name
+		}
+		if !callee(name) {
+			return true
+		}
+		for _, a := range call.Args {
+			if tv, ok := pk.TypesInfo.Types[a]; ok && tv.Value != nil && tv.Value.Kind().String() == "String" {
+				if s, err := strconv.Unquote(tv.Value.ExactString()); err == nil {
+					out = append(out, s)
+				}
+				break
+			}
+		}
+		return true
+	})
+	return out
+}
+
+// distinctive returns the longest literal piece of a format string.
+func distinctive(format string) string {
+	best := ""
+	cur := strings.Builder{}
+	flush := func() {
+		if s := strings.TrimSpace(cur.String()); len(s) > len(best) {
+			best = s
+		}
+		cur.Reset()
+	}
+	for i := 0; i < len(format); i++ {
+		if format[i] == '%' && i+1 < len(format) {
+			flush()
+			i++
+			continue
+		}
+		cur.WriteByte(format[i])
+	}
+	flush()
+	return best
+}
+
+func ruleRefErrors(p *core.Program) []core.Obligation {
+	const rule = "R-REFERRORS"
+	var obs []core.Obligation
+	ref := p.Deps[pkgPromqlRef]
+	if ref == nil {
+		return []core.Obligation{core.Ob(rule, "reference error messages", "-", "", core.Lost, "reference package not loaded")}
+	}
+	for _, pr := range []struct{ refFn, repoPkg string }{
+		{"evaluator.VectorBinop", "execution/binary"},
+		{"evaluator.aggregation", "execution/aggregate"},
+	} {
+		fn := findRefBody(ref, pr.refFn)
+		rp := p.ByPath[core.Module+"/"+pr.repoPkg]
+		if fn == nil || rp == nil {
+			obs = append(obs, core.Ob(rule, "failures of promql."+pr.refFn, "-", "", core.Lost, "function or package not found"))
+			continue
+		}
+		// aggregations the repository evaluates natively: the string case labels of execution/aggregate
+		native := map[string]bool{"topk": true, "bottomk": true}
+		if ap := p.ByPath[core.Module+"/execution/aggregate"]; ap != nil {
+			for _, f := range ap.Syntax {
+				ast.Inspect(f, func(n ast.Node) bool {
+					if cc, ok := n.(*ast.CaseClause); ok {
+						for _, e := range cc.List {
+							if bl, ok := e.(*ast.BasicLit); ok && bl.Kind == token.STRING {
+								native[strings.Trim(bl.Value, "\"")] = true
+							}
+						}
+					}
+					return true
+				})
+			}
+		}
+		vocab, verr := readParserVocab(p)
+		if verr != nil {
+			obs = append(obs, core.Ob(rule, "failures of promql."+pr.refFn, "-", "", core.Lost, verr.Error()))
+			continue
+		}
+		notNative := func(tok string) bool {
+			for _, a := range vocab.aggregators {
+				if a == tok {
+					return !native[vocab.tokenString[tok]]
+				}
+			}
+			return false
+		}
+		msgs := errorfMessages(ref, fn, func(n string) bool { return n == "errorf" }, notNative)
+		// every string constant of the repo package
+		var repoStrings []string
+		for _, f := range rp.Syntax {
+			ast.Inspect(f, func(n ast.Node) bool {
+				e, ok := n.(ast.Expr)
+				if !ok {
+					return true
+				}
+				if tv, ok := rp.TypesInfo.Types[e]; ok && tv.Value != nil && tv.Value.Kind().String() == "String" {
+					if s, err := strconv.Unquote(tv.Value.ExactString()); err == nil {
+						repoStrings = append(repoStrings, s)
+					}
+				}
+				return true
+			})
+		}
+		seen := map[string]bool{}
+		for _, m := range msgs {
+			d := distinctive(m)
+			if len(d) < 12 || seen[d] {
+				continue
+			}
+			seen[d] = true
+			key := fmt.Sprintf("%s can fail like promql.%s: %q", pr.repoPkg, pr.refFn, d)
+			found := false
+			for _, s := range repoStrings {
+				if strings.Contains(s, d) {
+					found = true
+				}
+			}
+			if found {
+				obs = append(obs, core.Ob(rule, key, pr.repoPkg, pr.refFn, core.Held, "an error message of the package carries the reference's text"))
+			} else {
+				obs = append(obs, core.Ob(rule, key, pr.repoPkg, pr.refFn, core.Violated, "no error of "+pr.repoPkg+" corresponds to this failure of the reference: a query the reference rejects here is answered (with duplicate or arbitrary series)"))
+			}
+		}
+	}
+	return obs
+}
